@@ -643,10 +643,16 @@ class Facts:
         self._dispatch = {}
         for b in self.bodies.values():
             for bi, t in b.all_calls():
-                for n in call_names(t):
+                names = call_names(t)
+                resolved = any(n in self.bodies for n in names)
+                for n in names:
                     if n in self.bodies:
                         ce[b.path].add(n)
                         cr[n].add(b.path)
+                    elif resolved:
+                        # the compiler resolved this call to one crate body (concrete receiver type): the trait-method path it was
+                        # written through names no further candidates
+                        continue
                     elif '::' in n and not n.startswith('<'):
                         # call through a crate-local trait (dyn or generic): every crate impl of that method
                         tr, _, meth = n.rpartition('::')
